@@ -8,6 +8,7 @@ import (
 	"fmt"
 	"math/rand"
 	"os"
+	"strings"
 
 	"verif/harness/run"
 )
@@ -127,7 +128,7 @@ func (g *gen) pick(xs ...string) string { return xs[g.rng.Intn(len(xs))] }
 func (g *gen) maxRows() int {
 	return []int{0, 0, 0, 1, 2, 7, 1000, 2147483647, 4294967295}[g.rng.Intn(9)]
 }
-func (g *gen) chance(p float64) bool    { return g.rng.Float64() < p }
+func (g *gen) chance(p float64) bool { return g.rng.Float64() < p }
 
 func (g *gen) text(max int) string {
 	const alpha = "abcdefghijklmnopqrstuvwxyz ABCDEFGHIJKLMNOPQRSTUVWXYZ0123456789_-.:,"
@@ -281,7 +282,13 @@ func (g *gen) behC05() M {
 	return M{"cfg": baseCfg(), "steps": steps}
 }
 
-func (g *gen) name() string { return g.pick("", "a", "b", "s1") }
+// names: the unnamed one, short ones, two that differ only in letter case, two long ones that share their
+// first 70 bytes (names are byte strings: no folding, no truncation)
+var longName = "n" + strings.Repeat("x", 69)
+
+func (g *gen) name() string {
+	return g.pick("", "", "a", "a", "b", "s1", "A", longName+"-1", longName+"-2")
+}
 
 func (g *gen) behC06() M {
 	steps := []any{startup("u")}
@@ -384,6 +391,11 @@ func (g *gen) behC07() M {
 		case 0, 1:
 			g.id++
 			id := g.id
+			if id > 2 && g.chance(0.25) {
+				// the very same query text once more (under this or another name): the parser is consulted for
+				// every Parse, whatever was parsed before on this or any other connection
+				id = 1 + g.rng.Intn(id-1)
+			}
 			st := M{"id": id, "cols": []any{M{"name": fmt.Sprintf("v%d", id), "oid": 25}}, "oids": []any{},
 				"prog": []any{M{"op": "row", "cells": []any{M{"c": "v", "val": fmt.Sprintf("s:r%d", id)}}}, M{"op": "complete", "tag": "OK"}, M{"op": "ret", "r": "nil"}}}
 			m = M{"t": "P", "name": g.name(), "q": M{"id": id, "parse": "ok", "stmts": []any{st}}, "noids": 0}
@@ -549,6 +561,13 @@ func (g *gen) behC08() M {
 		if other != "" && other != portal {
 			steps = append(steps, send(M{"t": "D", "kind": "P", "name": other}), send(M{"t": "E", "portal": other, "max": g.maxRows()}))
 		}
+		if g.chance(0.3) {
+			// a portal may be executed again (here, or after the Sync): it still carries its Bind's parameters
+			if g.chance(0.5) {
+				steps = append(steps, send(M{"t": "S"}))
+			}
+			steps = append(steps, send(M{"t": "E", "portal": portal, "max": g.maxRows()}))
+		}
 		steps = append(steps, send(M{"t": "S"}))
 	}
 	cfg := baseCfg()
@@ -710,6 +729,10 @@ func (g *gen) behC13() M {
 				}
 				b := make([]byte, n)
 				g.rng.Read(b)
+				if g.chance(0.12) {
+					// payloads that look like the textual end-of-data marker are data like any other
+					b = []byte(g.pick("\\.\n", "\\.", "\\.\r\n", "\\.\n\\.\n"))
+				}
 				m = M{"t": "d", "_hex": hex.EncodeToString(b)}
 			}
 			stp := send(m)
@@ -765,7 +788,7 @@ func (g *gen) behC01() M {
 	case 3, 4, 5:
 		m = M{"t": "p", "pw": "bad"}
 	case 6:
-		m = M{"t": "p", "pw": g.pick("err", "errc")}
+		m = M{"t": "p", "pw": g.pick("err", "errc", "gooderr")}
 	case 7:
 		m = M{"t": "Q", "q": g.trivialQ()}
 	case 8:
@@ -1015,8 +1038,23 @@ func (g *gen) behC20() M {
 		g.id++
 		st := M{"id": g.id, "cols": []any{}, "oids": []any{}, "toks": toks, "prog": []any{M{"op": "complete", "tag": "OK"}, M{"op": "ret", "r": "nil"}}}
 		// the frontend may prespecify any number of parameter types: Describe still announces what ParseParameters reported
-		steps = append(steps, startup("u"), send(M{"t": "P", "name": "", "q": M{"id": g.id, "parse": "ok", "stmts": []any{st}}, "noids": []int{0, 0, 1, 2, 3, 7}[g.rng.Intn(6)]}),
-			send(M{"t": "D", "kind": "S", "name": ""}), send(M{"t": "S"}))
+		nm := g.pick("", "", "Lookup", "s_1")
+		steps = append(steps, startup("u"), send(M{"t": "P", "name": nm, "q": M{"id": g.id, "parse": "ok", "stmts": []any{st}}, "noids": []int{0, 0, 1, 2, 3, 7}[g.rng.Intn(6)]}))
+		if nm != "" && g.chance(0.6) {
+			// another statement under a name that differs in letter case only, with another number of
+			// parameters: the first one's Describe still announces its own
+			g.id++
+			other := []any{}
+			for k := 0; k < g.rng.Intn(4); k++ {
+				other = append(other, M{"k": "q"}, M{"k": "text"})
+			}
+			st2 := M{"id": g.id, "cols": []any{}, "oids": []any{}, "toks": other, "prog": []any{M{"op": "complete", "tag": "OK"}, M{"op": "ret", "r": "nil"}}}
+			steps = append(steps, send(M{"t": "P", "name": strings.ToLower(nm), "q": M{"id": g.id, "parse": "ok", "stmts": []any{st2}}, "noids": 0}))
+			if nm == "s_1" {
+				steps[len(steps)-1] = send(M{"t": "P", "name": "S_1", "q": M{"id": g.id, "parse": "ok", "stmts": []any{st2}}, "noids": 0})
+			}
+		}
+		steps = append(steps, send(M{"t": "D", "kind": "S", "name": nm}), send(M{"t": "S"}))
 	}
 	cfg := baseCfg()
 	cfg["limit"] = 1 << 20
@@ -1125,7 +1163,7 @@ func (g *gen) scnC14() M {
 		}
 	}
 	return M{"table": table, "hdr": hdr, "trailer": trailer, "corrupt": corrupt, "cuts": []any{}, "bytecuts": bytecuts,
-		"ncols": ncols, "emptychunks": g.chance(0.2)}
+		"ncols": ncols, "emptychunks": g.chance(0.2), "limit": []int{0, 0, 0, 64, 100, 256}[g.rng.Intn(6)]}
 }
 
 // behC09: rows over all 13 types, 1..8 columns, up to 10 rows, random NULL
@@ -1321,11 +1359,14 @@ func (g *gen) behC18() M {
 // or in plaintext after 'N'; SSLRequest with or without stuffed plaintext.
 func (g *gen) behC11() M {
 	var b M
-	switch g.rng.Intn(3) {
+	switch g.rng.Intn(4) {
 	case 0:
 		b = g.behC05()
 	case 1:
 		b = g.behC06()
+	case 2:
+		// the message-size limit is the configured one inside TLS too: messages just under, at and over it
+		b = g.behC10()
 	default:
 		b = g.behC13()
 	}
@@ -1342,7 +1383,10 @@ func (g *gen) behC11() M {
 		cfg["tls"] = "cert" // certificates configured, the client does not ask for TLS
 	default:
 		cfg["tls"] = "cert"
-		steps = append([]any{send(M{"t": "SSLRequest", "stuffed": g.chance(0.3)}), M{"k": "tls"}}, steps...)
+		// (plaintext stuffed behind the SSLRequest is only generated with a read buffer that takes all of it in:
+		// with a tiny buffer part of it stays on the socket and is, rightly, taken for a broken TLS handshake)
+		stuffed := g.chance(0.3) && run.I(cfg, "limit") >= 4096
+		steps = append([]any{send(M{"t": "SSLRequest", "stuffed": stuffed}), M{"k": "tls"}}, steps...)
 	}
 	b["steps"] = steps
 	return b
